@@ -587,6 +587,10 @@ def rule_ctor(ctx):
     ctx.floor("C20.CTOR", "argument x path evaluations", n, 100)
 
 
+# equality does not record a child's kind: it is structural only because every child of a vector is forced to the
+# vector's one child kind (C13.RAISE: checks.children tests every child; C13.CHILD: against the right, unambiguous kind)
+IMPORTS = [('C13', 'C13.RAISE'), ('C13', 'C13.CHILD')]
+
 RULES = [
     ("C20.CTOR", rule_ctor, "every named constructor argument reaches the compared rendering on every successful construction path"),
     ("C20.STABLE", rule_stable, "copies built from the same arguments stay equal after one of them was serialised, rendered or compared"),
